@@ -82,6 +82,10 @@ type RuleEntryReceiver interface {
 
 // AcceptSalience will accept salience value
 func (e *RuleEntry) AcceptSalience(salience *Salience) error {
+	if salience.OutOfRange {
+
+		return fmt.Errorf("salience of rule %s is out of the 32 bit integer range", e.RuleName)
+	}
 	e.Salience = salience.SalienceValue
 
 	return nil
